@@ -206,7 +206,8 @@ func (p c16Prog) emit(d ivg.Destination, k int, indirect bool, from, to int, res
 
 type c16Case struct {
 	Prog  c16Prog `json:"program"`
-	W, H  int     `json:"w_h"`
+	W     int     `json:"w"`
+	H     int     `json:"h"`
 	Alpha bool    `json:"alpha_dst"`
 	Op    int     `json:"op"` // 0 Over, 1 Src
 	Rel   string  `json:"relation"`
@@ -234,9 +235,9 @@ func c16Render(img draw.Image, rect image.Rectangle, op draw.Op, f func(d ivg.De
 
 func c16Sizes(tier string) [][2]int {
 	if tier == "thorough" {
-		return [][2]int{{1, 1}, {7, 7}, {64, 64}, {512, 512}, {513, 513}, {600, 600}, {40, 100}}
+		return [][2]int{{1, 1}, {7, 7}, {64, 64}, {512, 512}, {513, 513}, {600, 600}, {40, 100}, {100, 40}, {511, 3}}
 	}
-	return [][2]int{{7, 7}, {64, 64}, {513, 513}, {40, 100}}
+	return [][2]int{{1, 1}, {7, 7}, {64, 64}, {512, 512}, {513, 513}, {40, 100}}
 }
 
 func c16OneProgs() []c16Prog {
@@ -254,7 +255,7 @@ func init() {
 	mc.Register(&mc.Check{
 		ID:    "C16",
 		Level: "exploration",
-		Rule: "engine P over (graphic x destination x rectangle x transformation): every one-path program over 10 shapes (L, l, H/V, Q+T, q+t, C+S, c+s, A, a, sub-paths via Y and y) x 4 fills (opaque, translucent, linear-pad gradient, radial-reflect gradient) x sizes {7,64,513,40x100} (thorough + {1,512,600}) x {RGBA, Alpha} x {Src, Over}, and every ordered pair of one-path programs (1600) at sizes 64 and 7, rendered with raster/vec. " +
+		Rule: "engine P over (graphic x destination x rectangle x transformation): every one-path program over 10 shapes (L, l, H/V, Q+T, q+t, C+S, c+s, A, a, sub-paths via Y and y) x 4 fills (opaque, translucent, linear-pad gradient, radial-reflect gradient) x sizes {1,7,64,512,513,40x100} (thorough + {600,100x40,511x3}) x {RGBA, Alpha} x {Src, Over}, and every ordered pair of one-path programs (1600) at sizes 64 and 7, rendered with raster/vec. " +
 			"Relations, pixel buffers byte for byte: (a) rectangle at offset (7,9) inside a larger image with sentinel margin == image of its own, margin untouched; (b) viewBox, coordinates and radii x 2^k, gradient matrix linear part x 2^-k, k in {-3,-1,+2,+6} == original; (c) colours via palette index / register reference / blend == direct colours; (d) [P1,P2] with operator Src == P1 with Src then P2 with Over by a fresh Renderer. " +
 			"distinct = hash of the rendered pixels; non-trivial = render that produced at least one non-zero and one zero pixel",
 		Assumptions: []string{"golang.org/x/image/vector is a trusted dependency", "every float operation of the renderer commutes exactly with power-of-two scaling in the absence of overflow/underflow (the exponent set avoids both)"},
@@ -270,9 +271,6 @@ func init() {
 								return
 							}
 							big := sz[0] > 100
-							if big && !w.Thorough && (alpha != (op == 1)) {
-								continue
-							}
 							c16Check(w, &c16Case{Prog: p, W: sz[0], H: sz[1], Alpha: alpha, Op: op, Rel: "a"})
 							c16Check(w, &c16Case{Prog: p, W: sz[0], H: sz[1], Alpha: alpha, Op: op, Rel: "c"})
 							for _, k := range []int{-3, -1, 2, 6} {
@@ -349,7 +347,12 @@ func c16Check(w *mc.W, cs *c16Case) {
 			(*bigPix)[i] = 0xab
 		}
 		rect := image.Rect(mx, my, mx+cs.W, my+cs.H)
-		draw.Draw(big, rect, image.Transparent, image.Point{}, draw.Src)
+		if op != draw.Src {
+			// Over composes with what is there: start from the same (empty) content as the image of
+			// its own. With Src the first path replaces the whole rectangle, so the sentinel content
+			// is left in place and must not show through.
+			draw.Draw(big, rect, image.Transparent, image.Point{}, draw.Src)
+		}
 		c16Render(big, rect, op, func(d ivg.Destination) { p.emit(d, 0, false, 0, n, true) })
 		// compare region and margin
 		for y := bigR.Min.Y; y < bigR.Max.Y; y++ {
